@@ -33,11 +33,20 @@ package bellatrix
 //@   assigns anything, ghost(n_set_exec_header)
 //@   ensures n_set_exec_header == old(n_set_exec_header) + 1
 
-// fork upgrade: assumed to hand back a state view of this fork on success (C14: which upgrade runs when is verified in beacon.UpgradeMaybe)
-//@ func UpgradeToBellatrix(spec, epc, pre) (post, err)
+// upgrade_to_bellatrix: the new fork record is (previous_version = the pre-state's current version, current_version =
+// BELLATRIX_FORK_VERSION, epoch = the epoch of the pre-state's slot). The rest of the upgrade (field carry-over, new fields)
+// assembles tree views through the external view library and is not described; a state comes back on success.
+//@ func AsBeaconStateView(v, err0) (r, err)
 //@   trusted
-//@   assigns anything
+//@   ensures err == nil ==> r != nil
+//@ func UpgradeToBellatrix(spec, epc, pre) (post, err)
+//@   property C14 C02
+//@   panics off
+//@   opt weakcalls
+//@   opt inline=closures
+//@   assigns anything, ghost(n_fork_view), ghost(last_fork_view)
 //@   ensures err == nil ==> post != nil
+//@   ensures fork_record: err == nil && spec != nil && spec.SLOTS_PER_EPOCH != 0 && pre != nil ==> n_fork_view == old(n_fork_view) + 1 && last_fork_view.PreviousVersion == pst_fork_altair(pre).CurrentVersion && last_fork_view.CurrentVersion == spec.BELLATRIX_FORK_VERSION && last_fork_view.Epoch == pst_slot_altair(pre) / spec.SLOTS_PER_EPOCH
 
 // the state's latest execution payload header (assumed view models, snapshot semantics; C03)
 //@ sort StateX_bellatrix = ExecutionTrackingBeaconState
@@ -61,6 +70,24 @@ package bellatrix
 //@   property C02 C01
 //@   requires spec != nil
 //@   ensures r != nil && r.MinSlashingPenaltyQuotient == spec.MIN_SLASHING_PENALTY_QUOTIENT_BELLATRIX && r.ProportionalSlashingMultiplier == spec.PROPORTIONAL_SLASHING_MULTIPLIER_BELLATRIX && r.InactivityPenaltyQuotient == spec.INACTIVITY_PENALTY_QUOTIENT_BELLATRIX
+
+// the concrete state's slot and fork record (assumed accessor models; read by the next fork's upgrade function)
+//@ sort StatePtr_bellatrix = *BeaconStateView
+//@ sort ForkRec_bellatrix = common.Fork
+//@ ufun pst_slot_err_bellatrix(StatePtr_bellatrix) bool
+//@ ufun pst_slot_bellatrix(StatePtr_bellatrix) int
+//@ ufun pst_fork_err_bellatrix(StatePtr_bellatrix) bool
+//@ ufun pst_fork_bellatrix(StatePtr_bellatrix) ForkRec_bellatrix
+//@ func (state *BeaconStateView) Slot() (r, err)
+//@   trusted
+//@   opt noalloc
+//@   ensures (err != nil) == pst_slot_err_bellatrix(state)
+//@   ensures err == nil ==> r == pst_slot_bellatrix(state)
+//@ func (state *BeaconStateView) Fork() (r, err)
+//@   trusted
+//@   opt noalloc
+//@   ensures (err != nil) == pst_fork_err_bellatrix(state)
+//@   ensures err == nil ==> r == pst_fork_bellatrix(state)
 
 // BEGIN C18 generated (tools/gen_c18.py in /verif)
 // cancelled: a context cancelled before the call makes it fail; surfaced: a cancellation observed by a poll
